@@ -76,6 +76,186 @@ fn count(v: Option<bool>, st: &mut Stats) {
     }
 }
 
+// ---------------------------------------------------------------------------
+// (d) conformance by the W-method: unbounded length under a state-count assumption
+// ---------------------------------------------------------------------------
+
+/// State of the specification automaton over the 23 classes. `interior` = a non-NSM has
+/// followed an NSM. With `strict_nsm` the automaton is the behaviour the repository's own
+/// tests pin (the known finding): RFC 5893 AND no interior NSM; without it, RFC 5893 itself.
+#[derive(Clone, PartialEq, Eq, Hash, Debug)]
+pub struct BidiState {
+    first: u8,     // 0 none yet, 1 R/AL, 2 L, 3 anything else
+    has_rtl: bool, // some R / AL / AN seen
+    bad_rtl: bool, // a class not allowed in an RTL label seen
+    bad_ltr: bool, // a class not allowed in an LTR label seen
+    en: bool,
+    an: bool,
+    last: u8, // last non-NSM: 0 none, 1 R/AL, 2 EN, 3 AN, 4 L, 5 other
+    nsm_seen: bool,
+    interior: bool,
+}
+
+impl BidiState {
+    pub fn init() -> BidiState {
+        BidiState { first: 0, has_rtl: false, bad_rtl: false, bad_ltr: false, en: false, an: false, last: 0, nsm_seen: false, interior: false }
+    }
+    pub fn step(&self, sym: usize) -> BidiState {
+        let c = BIDI_CLASSES[sym];
+        let mut s = self.clone();
+        if s.first == 0 {
+            s.first = match c {
+                "R" | "AL" => 1,
+                "L" => 2,
+                _ => 3,
+            };
+        }
+        if matches!(c, "R" | "AL" | "AN") {
+            s.has_rtl = true;
+        }
+        if !matches!(c, "R" | "AL" | "AN" | "EN" | "ES" | "CS" | "ET" | "ON" | "BN" | "NSM") {
+            s.bad_rtl = true;
+        }
+        if !matches!(c, "L" | "EN" | "ES" | "CS" | "ET" | "ON" | "BN" | "NSM") {
+            s.bad_ltr = true;
+        }
+        if c == "EN" {
+            s.en = true;
+        }
+        if c == "AN" {
+            s.an = true;
+        }
+        if c == "NSM" {
+            s.nsm_seen = true;
+        } else {
+            if s.nsm_seen {
+                s.interior = true;
+            }
+            s.last = match c {
+                "R" | "AL" => 1,
+                "EN" => 2,
+                "AN" => 3,
+                "L" => 4,
+                _ => 5,
+            };
+        }
+        s
+    }
+    pub fn accepts(&self, strict_nsm: bool) -> bool {
+        if !self.has_rtl {
+            return true; // the rule does not apply
+        }
+        let rfc = match self.first {
+            1 => !self.bad_rtl && matches!(self.last, 1 | 2 | 3) && !(self.en && self.an),
+            2 => !self.bad_ltr && matches!(self.last, 4 | 2),
+            _ => false,
+        };
+        rfc && !(strict_nsm && self.interior)
+    }
+}
+
+/// run the W-method suite of the specification automaton against directionality_rule
+pub fn wmethod(_env: &Env, reps: &[(String, char)], strict_nsm: bool, extra_states: usize, st: &mut Stats) -> serde_json::Value {
+    use crate::wmethod::explore;
+    let (dfa, states) = explore(BidiState::init(), 23, |s, a| s.step(a), |s| s.accepts(strict_nsm));
+    // sanity of the automaton against the set-predicate reference on every sequence up to length 4
+    let mut frontier: Vec<Vec<usize>> = vec![vec![]];
+    for _ in 0..=4 {
+        let mut next = Vec::new();
+        for w in &frontier {
+            let q: Vec<&str> = w.iter().map(|a| BIDI_CLASSES[*a]).collect();
+            let rfc = if q.is_empty() { true } else { !matches!(ref_bidi(&q), Some(false)) };
+            let interior = interior_nsm(&q) && q.iter().any(|c| matches!(*c, "R" | "AL" | "AN"));
+            let expect = rfc && !(strict_nsm && interior);
+            if dfa.run(w) != expect {
+                st.caps_hit.push(format!("MACHINERY: specification automaton disagrees with the reference predicates on {:?}", q));
+                return json!({"status": "automaton invalid"});
+            }
+            if w.len() < 4 {
+                for a in 0..23 {
+                    let mut v = w.clone();
+                    v.push(a);
+                    next.push(v);
+                }
+            }
+        }
+        frontier = next;
+        if frontier.is_empty() {
+            break;
+        }
+    }
+    let min = dfa.minimize();
+    let suite = min.wmethod_suite(extra_states);
+    let alpha: Vec<char> = BIDI_CLASSES.iter().map(|c| reps.iter().find(|(n, _)| n == c).map(|(_, ch)| *ch).unwrap()).collect();
+    let res = run_family_words(&suite, |w, st| {
+        let s: String = w.iter().map(|a| alpha[*a]).collect();
+        let got = rule(Prof::Ucm, RuleFn::Dir, &s);
+        st.evaluations += 1;
+        st.traces += 1;
+        let exp = if min.run(w) { Out::Ok(s.clone()) } else { Out::Err(E::Invalid) };
+        if got != exp {
+            let q: Vec<&str> = w.iter().map(|a| BIDI_CLASSES[*a]).collect();
+            st.violation(
+                if matches!(got, Out::Panic(_)) { "panic" } else { "conformance" },
+                || Case::new("dir").s(&s).x(json!(Prof::Ucm.name())),
+                format!("{} (specification automaton, classes {:?})", show_out(&exp), q),
+                show_out(&got),
+            );
+        }
+    });
+    st.merge(res);
+    json!({
+        "specification": if strict_nsm { "RFC 5893 AND no non-NSM after an NSM (the behaviour recorded as known finding bidi_interior_nsm)" } else { "RFC 5893" },
+        "reachable_states": states.len(),
+        "minimal_states": min.trans.len(),
+        "characterization_set_size": min.characterization_set().len(),
+        "extra_states_allowed": extra_states,
+        "tests": suite.len(),
+        "longest_test": suite.iter().map(|w| w.len()).max().unwrap_or(0),
+        "claim": format!("if all tests pass, directionality_rule equals the specification on class sequences of EVERY length, provided its own minimal automaton over the 23 classes has at most {} states", min.trans.len() + extra_states),
+    })
+}
+
+fn run_family_words<F>(words: &[Vec<usize>], f: F) -> Stats
+where
+    F: Fn(&[usize], &mut Stats) + Sync,
+{
+    let shards: Vec<Stats> = words
+        .par_chunks(512)
+        .map(|chunk| {
+            let mut st = Stats::default();
+            for w in chunk {
+                st.states += 1;
+                st.transitions += 1;
+                f(w, &mut st);
+            }
+            st
+        })
+        .collect();
+    let mut total = Stats::default();
+    for s in shards {
+        total.merge(s);
+    }
+    total
+}
+
+/// exact relation between the two specification automata (product construction): every
+/// string RFC 5893 accepts and the strict automaton rejects has an interior NSM
+pub fn relation_rfc_vs_strict() -> Result<usize, String> {
+    use crate::wmethod::explore;
+    let (_, states) = explore(BidiState::init(), 23, |s, a| s.step(a), |s| s.accepts(false));
+    for s in &states {
+        let (rfc, strict) = (s.accepts(false), s.accepts(true));
+        if strict && !rfc {
+            return Err(format!("strict accepts what RFC rejects in state {:?}", s));
+        }
+        if rfc && !strict && !s.interior {
+            return Err(format!("difference without interior NSM in state {:?}", s));
+        }
+    }
+    Ok(states.len())
+}
+
 pub fn run(env: &Env, run: &Run) -> (Stats, Coverage) {
     let mut st = Stats::default();
     let reps = match representatives(env, run.seed) {
@@ -143,17 +323,28 @@ pub fn run(env: &Env, run: &Run) -> (Stats, Coverage) {
             count(v, st);
         }));
     }
+    // (d) W-method conformance against the specification automaton
+    let strict = run.is_known("bidi_interior_nsm").is_some();
+    let wm = if reps.len() == 23 {
+        let rel = relation_rfc_vs_strict();
+        if let Err(e) = &rel {
+            st.caps_hit.push(format!("MACHINERY: {}", e));
+        }
+        wmethod(env, &reps, strict, run.tier.pick(2, 4), &mut st)
+    } else {
+        json!(null)
+    };
     st.sample(json!({"classes": ["R", "NSM", "R"], "expected": "accept (RFC 5893: NSM allowed anywhere in an RTL label; last non-NSM is R)"}));
     st.sample(json!({"classes": ["R", "EN", "AN"], "expected": "Err(Invalid): EN and AN mixed"}));
     st.sample(json!({"classes": ["L", "R"], "expected": "Err(Invalid): R in an LTR label"}));
     st.sample(json!({"classes": ["EN", "L"], "expected": "Ok unchanged: no R/AL/AN, rule does not apply"}));
     let cov = Coverage {
-        rule: format!("(a) every sequence of length <= {} over the 23 bidirectional classes (one representative code point per class, rotated by VERIF_SEED) through directionality_rule; (b) every code point assigned in the profile crate's UnicodeData in the contexts c, Rc, RcR, R AN c R, LcL and next to each of its assigned bit-16..20 aliases; (c) pumped runs a^k b, b a^k, a^k b a over the 23 representatives for k in 6..9, 15..17, 30..33, 63..65, 127..129, 255..257, 1023, 1025; oracle = the six RFC 5893 conditions as set predicates over the class sequence (not a scan), classes from an independent reader of UnicodeData; Ok results must equal the input; non-trivial = labels that contain R/AL/AN (the rule is actually judged)", n),
+        rule: format!("(a) every sequence of length <= {} over the 23 bidirectional classes (one representative code point per class, rotated by VERIF_SEED) through directionality_rule; (b) every code point assigned in the profile crate's UnicodeData in the contexts c, Rc, RcR, R AN c R, LcL and next to each of its assigned bit-16..20 aliases; (d) the complete W-method test suite of the specification automaton (see 'wmethod'); (c) pumped runs a^k b, b a^k, a^k b a over the 23 representatives for k in 6..9, 15..17, 30..33, 63..65, 127..129, 255..257, 1023, 1025; oracle = the six RFC 5893 conditions as set predicates over the class sequence (not a scan), classes from an independent reader of UnicodeData; Ok results must equal the input; non-trivial = labels that contain R/AL/AN (the rule is actually judged)", n),
         alphabet: json!(reps.iter().map(|(c, ch)| format!("{}=U+{:04X}", c, *ch as u32)).collect::<Vec<_>>()),
         bound_completed: format!("all {} class sequences of length <= {}; table: every assigned code point x 5 contexts", tree_size(23, n), n),
         exhaustive: false,
         assumptions: vec!["the scan's state (direction, previous class, nsm/en/an flags) is reached by <= 4 symbols, so length 5-7 exercises every transition out of every reachable state plus the end-of-label test; a change that adds a counter beyond that is outside the bound".into()],
-        extra: json!({}),
+        extra: json!({"wmethod": wm}),
     };
     (st, cov)
 }
